@@ -18,17 +18,24 @@ RULE = ("random configuration (1..6 parity + z, 1..6 data disks incl. position h
         "taken at sync time, following check clean. thorough: all device subsets of size <= N when nd+np <= 7. A case is "
         "non-trivial when the plan really changed >= 1 recorded block/entry; distinct by (cfg, history, plan).")
 
-DATA_KINDS = ["wipe", "wipe", "delete", "truncate", "flip", "flip-newtime", "rmlinks"]
+DATA_KINDS = ["wipe", "wipe", "delete", "truncate", "flip", "flip-newtime", "rmlinks", "rename-over"]
 PAR_KINDS = ["delete", "zero", "truncate", "flips", "random"]
 
 
-def build_synced_array(rng, tag, cfg=None, variant="plain", rounds=None, want_migration=None):
+def build_synced_array(rng, tag, cfg=None, variant="plain", rounds=None, want_migration=None, twins=False):
     """Returns (arr, fs, state, hist) with a clean final sync, or raises CaseError."""
     cfg = cfg or scen.gen_config(rng)
     a, fs = scen.make(rng, cfg, tag)
     hist = []
     try:
         A.populate(fs, rng, nfiles=rng.randint(5, 20), hostile=0.12)
+        if twins:
+            # files of equal size whose time-stamps agree in the seconds and differ in the nanoseconds (or one of them has none)
+            td = rng.choice(a.disks)
+            tn = rng.randint(1, 4 * a.bs)
+            tsec = fs.clock.next() // 10**9
+            for k_, ns_ in enumerate(rng.sample([0, 1, 111111111, 222222222, 999999999], rng.randint(2, 3))):
+                fs.write(td, b"twins/t%d" % k_, A.gen_bytes(rng, tn, "rand"), mtime_ns=tsec * 10**9 + ns_)
         first_hash = rng.choice([None, None, "--test-force-murmur3", "--test-force-spooky2"])
         rounds = rounds if rounds is not None else rng.randint(0, 3)
         for r_ in range(rounds):
@@ -51,6 +58,14 @@ def build_synced_array(rng, tag, cfg=None, variant="plain", rounds=None, want_mi
                             fs.entries[nd_] = {}
                             A.populate(fs, rng, nfiles=rng.randint(1, 5), hostile=0.1, disks=[nd_], links=False, dirs=False)
                             hist.append(("add-disk", nd_))
+        if twins:
+            # (again right before the final sync: the earlier random operations may have changed the first set)
+            td = rng.choice(a.disks)
+            tn = rng.randint(1, 4 * a.bs)
+            tsec = fs.clock.next() // 10**9
+            for k_, ns_ in enumerate(rng.sample([0, 1, 111111111, 222222222, 999999999], rng.randint(2, 3))):
+                if scen._clear_path(fs, td, b"twins/u%d" % k_):
+                    fs.write(td, b"twins/u%d" % k_, A.gen_bytes(rng, tn, "rand"), mtime_ns=tsec * 10**9 + ns_)
         args = [first_hash] if (rounds == 0 and first_hash) else []
         r = a.cmd("sync", "-E", "-Z", *args, variant=variant)
         hist.append(("sync-final", args, r.rc))
@@ -98,9 +113,10 @@ def apply_device_plan(a, fs, rng, state, devices):
     """Damage each device of the list with a random kind. Returns descriptions and a changed flag."""
     desc = []
     changed = False
-    for kind, idx in devices:
+    for dev in devices:
+        kind, idx = dev[0], dev[1]
         if kind == "data":
-            how = rng.choice(DATA_KINDS)
+            how = dev[2] if len(dev) > 2 else rng.choice(DATA_KINDS)
             did = scen.damage_data_disk(a, fs, rng, idx, how, state)
             if not did and how != "wipe":
                 how = "wipe"
@@ -147,6 +163,22 @@ def apply_stripe_plan(a, c, rng, nmax):
 def judge_recovery(a, fs, state, variant, res, label, replay, fix_args=()):
     """Run fix + check and compare with the recorded state. Appends violations to res."""
     viol = res["violations"]
+    # files whose bytes are intact and only the time-stamp moved (re-timed, not damaged): fix has no error to repair there
+    # and leaves them alone; their time-stamp is not judged
+    retimed = set()
+    for d_, ents in state.items():
+        for sub_, e_ in ents.items():
+            if e_[0] != "file":
+                continue
+            try:
+                p_ = fs.path(d_, sub_)
+                st_ = os.lstat(p_)
+                if st_.st_mtime_ns != e_[2] and st_.st_size == len(e_[1]) and os.path.isfile(p_) and not os.path.islink(p_):
+                    with open(p_, "rb") as fh_:
+                        if fh_.read() == e_[1]:
+                            retimed.add((d_, sub_))
+            except OSError:
+                pass
     r = a.cmd("fix", *fix_args, variant=variant)
     res["counters"]["fix_runs"] = res["counters"].get("fix_runs", 0) + 1
     for s in r.san:
@@ -170,6 +202,9 @@ def judge_recovery(a, fs, state, variant, res, label, replay, fix_args=()):
                      (label, r.rc, nun, r.err[-400:].decode("latin-1")), replay))
         return False
     probs = scen.verify_tree(a, fs, state, allow_extra=True)
+    probs = [p for p in probs if not (p["what"] == "mtime differs" and (p["disk"], p["sub"]) in retimed)]
+    if retimed:
+        res["counters"]["retimed_only_files"] = res["counters"].get("retimed_only_files", 0) + len(retimed)
     if probs:
         kinds = sorted({p["what"] for p in probs})
         why = ""
@@ -201,7 +236,7 @@ def run_case(case):
     cfg = None
     if tier == "thorough" and idx % 50 == 7:
         cfg = scen.gen_config(rng, force=dict(nd=40, nlev=rng.choice([2, 4, 6]), ncontent=2), allow_splits=False)
-    a, fs, state, hist, cfg = build_synced_array(rng, "c01", cfg, variant)
+    a, fs, state, hist, cfg = build_synced_array(rng, "c01", cfg, variant, twins=(idx % 3 == 0))
     tpl = None
     try:
         # negative control: the undamaged array must verify
@@ -225,6 +260,11 @@ def run_case(case):
                 k = rng.randint(1, min(n, len(devs)))
                 plans.append(("devices", rng.sample(devs, k)))
         plans.append(("stripes", n))
+        # one file gone and another one under its name (rm X; mv Y X), on the disk that holds the twins if there are any
+        tw = [d_ for d_ in a.disks if any(s_.startswith(b"twins/") for s_ in state.get(d_, {}))]
+        # (first plan: it runs on the array as synced, where the inode numbers on disk are still the recorded ones - later plans
+        # run on cp -a restored images with new inode numbers)
+        plans.insert(0, ("devices", [("data", tw[0] if tw else rng.choice(a.disks), "rename-over")]))
         # parity files cut in the middle of their last blocks (the tail of the last stripes is often zero)
         plans.append(("paritycut", rng.sample(range(a.nlev), rng.randint(1, a.nlev))))
         if rng.random() < 0.3:
